@@ -13,29 +13,66 @@ func (s *Session) dispatchFacts(fr *Frame, st *State, boxed Val, from, to types.
 		return
 	}
 	for _, r := range s.topContract.Dispatch {
-		if named.Obj().Name() != r.Iface {
+		if named.Obj().Name() != r.Iface || r.ForType != "" {
 			continue
 		}
+		org := s.ifaceOrigin[boxed.T0().S]
+		s.dispatchInstance(st, r, from, org.val, boxed.T0(), nil, TTrue)
+	}
+}
+
+// dispatchAllFacts implements `dispatch IFACE.METHOD UF for T`: for EVERY interface value that holds a T (not only the
+// ones boxed in the function under proof), calling METHOD runs T's method, so that method's verified postconditions
+// hold with result = UF(value, args).  Emitted once, in the entry state of the function under proof.
+func (s *Session) dispatchAllFacts(fr *Frame, st *State) {
+	if s.topContract == nil {
+		return
+	}
+	for _, r := range s.topContract.Dispatch {
+		if r.ForType == "" {
+			continue
+		}
+		tn := strings.TrimPrefix(r.ForType, "*")
+		var from types.Type = s.resolveType(fr.fn.Pkg.Pkg, tn)
+		if strings.HasPrefix(r.ForType, "*") {
+			from = types.NewPointer(from)
+		}
+		if len(shape(from)) != 1 {
+			panic(fmt.Sprintf("dispatch ... for %s: only pointer-like receiver types are supported", r.ForType))
+		}
+		s.nfresh++
+		q := qsym(fmt.Sprintf("dp!%d", s.nfresh))
+		pT := T{q, SInt}
+		boxed := s.uf("mkiface", SInt, s.typeTag(from), pT)
+		// no "allocated in the entry state" premise: the method's contract was verified for an arbitrary allocation
+		// frontier, and the instantiated clauses speak about heap fields only, so they also hold for objects that
+		// are allocated later (whose fields nobody has written since)
+		prem := Not(Eq(pT, I(0)))
+		s.dispatchInstance(st, r, from, Val{Typ: from, L: []T{pT}}, boxed, []string{fmt.Sprintf("(%s Int)", q)}, prem)
+	}
+}
+
+func (s *Session) dispatchInstance(st *State, r DispatchRule, from types.Type, recv Val, boxedT T, binders0 []string, premise T) {
+	{
 		m := s.eng.lookupMethod(from, r.Method)
 		if m == nil {
-			continue
+			return
 		}
 		c := s.contractFor(m)
 		if c == nil {
-			continue
+			return
 		}
 		sig := m.Signature
 		names := sigParamNames(m, sig, c)
 		// receiver = the concrete value; the other parameters are universally quantified
 		env := map[string]Val{}
-		var binders []string
+		binders := append([]string{}, binders0...)
 		var ufArgs []T
-		ufArgs = append(ufArgs, boxed.T0())
+		ufArgs = append(ufArgs, boxedT)
 		s.noDefine++
 		for i, n := range names {
 			if i == 0 {
-				org := s.ifaceOrigin[boxed.T0().S]
-				env[n] = org.val
+				env[n] = recv
 				continue
 			}
 			pt := sig.Params().At(i - 1).Type()
@@ -52,7 +89,7 @@ func (s *Session) dispatchFacts(fr *Frame, st *State, boxed Val, from, to types.
 		resSort := SBool
 		if sig.Results().Len() != 1 || !isBoolT(sig.Results().At(0).Type()) {
 			s.noDefine--
-			continue
+			return
 		}
 		ufT := s.uf("specb:"+r.UF, resSort, ufArgs...)
 		env["result"] = boolVal(ufT)
@@ -80,11 +117,11 @@ func (s *Session) dispatchFacts(fr *Frame, st *State, boxed Val, from, to types.
 		}()
 		s.noDefine--
 		if !okAll || len(post) == 0 || len(binders) == 0 {
-			continue
+			return
 		}
+		pre = append(pre, premise)
 		ax := fmt.Sprintf("(forall (%s) (! %s :pattern (%s)))", strings.Join(binders, " "), Imp(And(pre...), And(post...)).S, ufT.S)
 		s.assume(Imp(st.Reach, T{ax, SBool}))
 		s.note("DISPATCH: %s.%s on a boxed %s runs that type's method: its postconditions are assumed for every argument with result = %s(value, args)", r.Iface, r.Method, types.TypeString(from, nil), r.UF)
 	}
 }
-
